@@ -67,7 +67,9 @@ func (node *Node) processBlocks(ctx context.Context) error {
 		}
 		verifhook.At(ctx, "node.blocks.popped")
 
-		if err := node.ProcessBlock(ctx, block); err != nil {
+		err := node.ProcessBlock(ctx, block)
+		node.state.FinishedBlock()
+		if err != nil {
 			c := errors.Cause(err)
 			if c != ErrBlockNotNextBlock && c != ErrBlockNotAdded {
 				header := block.GetHeader()
@@ -449,6 +451,9 @@ func (node *Node) ProcessBlock(ctx context.Context, block wire.Block) error {
 		node.txs.ReleaseUnconfirmed(ctx) // Release unconfirmed
 		return err
 	}
+
+	// This block is processed now. It no longer stands in the way of being in sync.
+	node.state.FinishedBlock()
 
 	if !node.state.IsReady() {
 		if node.state.IsPendingSync() && node.state.BlockRequestsEmpty() {
